@@ -394,6 +394,28 @@ def _truth_of_maxfun_test(test: ast.AST, param: str):
     return 0
 
 
+_BRANCH_INFO: dict = {}
+
+
+def _index_branches(f) -> None:
+    """value node of every simple assignment in f -> the (if-test, taken-arm) pairs it sits under"""
+    arms = {}
+
+    def walk(stmts, conds):
+        for st in stmts:
+            if isinstance(st, (ast.Assign, ast.AnnAssign)) and getattr(st, "value", None) is not None:
+                arms[id(st.value)] = list(conds)
+            if isinstance(st, ast.If):
+                walk(st.body, conds + [(st.test, True)])
+                walk(st.orelse, conds + [(st.test, False)])
+            elif isinstance(st, (ast.For, ast.While, ast.With, ast.Try)):
+                for fld in ("body", "orelse", "finalbody"):
+                    walk(getattr(st, fld, []) or [], conds)
+    walk(f.node.body, [])
+    _BRANCH_INFO["fn"] = f
+    _BRANCH_INFO["arms"] = arms
+
+
 def _eval_under(e: ast.AST, defs, param, present: bool, depth=0):
     """Resolve an expression to its definition under the assumption that the budget is present/absent."""
     if depth > 8:
@@ -406,6 +428,22 @@ def _eval_under(e: ast.AST, defs, param, present: bool, depth=0):
         return e
     if isinstance(e, ast.Name) and e.id in defs and len(defs[e.id]) == 1 and not isinstance(defs[e.id][0], ast.AugAssign):
         return _eval_under(defs[e.id][0], defs, param, present, depth + 1)
+    if isinstance(e, ast.Name) and e.id in defs and len(defs[e.id]) > 1 and _BRANCH_INFO.get("fn") is not None:
+        # several definitions in the arms of `if <budget test>:` statements: keep those on arms consistent with the assumption
+        live = []
+        for d in defs[e.id]:
+            conds = _BRANCH_INFO["arms"].get(id(d))
+            if conds is None:
+                return e
+            consistent = True
+            for test, in_body in conds:
+                pol = _truth_of_maxfun_test(test, param)
+                if pol and ((pol == 1) == present) != in_body:
+                    consistent = False
+            if consistent:
+                live.append(d)
+        if len(live) == 1:
+            return _eval_under(live[0], defs, param, present, depth + 1)
     return e
 
 
@@ -433,6 +471,7 @@ def r03_4(ctx: Ctx):
     """R03.4 minimize(): nfev is read from a counter that is exact for `fun` under each assumption on maxfun."""
     f = ctx.prog.func("pyhms.hms", "minimize")
     defs = local_defs(f)
+    _index_branches(f)
     param = "maxfun"
     if param not in f.params():
         raise AnalysisError("minimize() has no maxfun parameter")
@@ -501,6 +540,7 @@ def r03_5(ctx: Ctx):
     """R03.5 budget wiring in minimize(): every level gets the cutoff-wrapped problem and the GSC is built from the same maxfun."""
     f = ctx.prog.func("pyhms.hms", "minimize")
     defs = local_defs(f)
+    _index_branches(f)
     obs = []
     n = 0
     for c in body_walk(f.node):
@@ -520,7 +560,7 @@ def r03_5(ctx: Ctx):
                 e = _eval_under(pe, defs, "maxfun", True)
                 cut = next((k.value for k in e.keywords if k.arg == "eval_cutoff"), e.args[1] if len(e.args) > 1 else None)
                 ok = cut is not None and norm(cut) == "maxfun"
-            obs.append(ctx.ob("R03.5", f, c, status=OK if ok else VIOLATION, detail=f"{ci.name} evaluates through the cutoff wrapper with cutoff maxfun" if ok else f"{ci.name} is given `{norm(pe)}`, which is not the maxfun cutoff wrapper: the budget can be exceeded"))
+            obs.append(ctx.ob("R03.5", f, c, status=OK if ok else INCONCLUSIVE if st is None else VIOLATION, detail=f"{ci.name} evaluates through the cutoff wrapper with cutoff maxfun" if ok else f"{ci.name} is given `{norm(pe)}`, which is not the maxfun cutoff wrapper: the budget can be exceeded"))
     if n < 2:
         raise AnalysisError("minimize() builds fewer than 2 level configs")
     gsc_defs = defs.get("gsc", [])
@@ -597,7 +637,8 @@ def _weighted_limit_status(w, tp, wdefs, rets):
         comp = wdefs[comp.id][0]
         hops += 1
     if not isinstance(comp, (ast.GeneratorExp, ast.ListComp)):
-        if not any(isinstance(x, ast.Attribute) and x.attr == "n_evaluations" for x in ast.walk(total)) and not isinstance(total, ast.Name):
+        opaque_call = any(isinstance(x, ast.Call) and norm(x.func) not in ("len", "sum", "max", "min", "int", "float") for x in ast.walk(total))
+        if not any(isinstance(x, ast.Attribute) and x.attr == "n_evaluations" for x in ast.walk(total)) and not isinstance(total, ast.Name) and not opaque_call:
             return VIOLATION, f"the quantity compared with the limit, `{norm(total)[:70]}`, is not built from the demes' evaluation counts"
         return INCONCLUSIVE, f"cannot read `{norm(total)[:70]}` as a sum over demes"
     gens = comp.generators
@@ -682,6 +723,19 @@ def r03_7(ctx: Ctx):
             if isinstance(c, ast.Call) and isinstance(c.func, ast.Attribute) and c.func.attr == "fitness_function":
                 n += 1
                 ok = f is fp
+                if not ok and f.cls is fp.cls and f.name.startswith("_") and not f.name.startswith("__"):
+                    # a private helper of FunctionProblem that only evaluate() (or other such helpers) calls: still behind evaluate
+                    allowed, grew = {fp.qualname}, True
+                    while grew:
+                        grew = False
+                        for g in ctx.prog.functions_in(fp.cls):
+                            if g.qualname in allowed or not (g.name.startswith("_") and not g.name.startswith("__")):
+                                continue
+                            callers = ctx.res.callers_of(g)
+                            if callers and all(cs.caller.qualname in allowed for cs in callers):
+                                allowed.add(g.qualname)
+                                grew = True
+                    ok = f.qualname in allowed
                 obs.append(ctx.ob("R03.7", f, c, status=OK if ok else VIOLATION, detail="objective invoked by FunctionProblem.evaluate" if ok else f"the objective is invoked directly by {f.short}, bypassing every counter"))
             if isinstance(c, ast.Attribute) and c.attr == "fitness_function" and isinstance(c.ctx, ast.Load) and f is not fp and not (isinstance(c.ctx, ast.Load) and f.name in ("__init__",)):
                 # reading the slot elsewhere (to call it later) is suspicious
